@@ -19,10 +19,10 @@ SCOPE = ('partially_occluded and raytracing on worlds of token cells whose opaci
 BOUNDS = {
     'quick': dict(worlds='2x2 with every view area of the box (ymin in [-2,0], ymax 0..1, xmin,xmax in [-2,2]); 3x2, 3x4 with the selected areas (views of at most 9 cells on 3x4)',
                   replaced_cell='every world cell (hidden in view, or outside the view) by symbolic choice', opacity='symbolic per cell (all 2^n patterns)',
-                  stochastic='views of at most 6 cells, every draw a symbolic real in [0,1) (0.0 included)'),
+                  stochastic='views of at most 6 cells, every draw a symbolic real in [0,1) (0.0 included)', large_views='7x7 (shipped), 9x9, 11x11 views, agent bottom centre, 3 symbolic occluders next to the agent'),
     'thorough': dict(worlds='up to 2x3 every area; 3x2, 3x4, 4x4 with selected areas up to 5x5', replaced_cell='every', opacity='symbolic', stochastic='views up to 9 cells'),
 }
-OUTSIDE = '7x7 views (2^49 opacity patterns)'
+OUTSIDE = '7x7 and larger views with arbitrary occluder patterns (2^49): they are covered only with three symbolic occluders next to the agent (large-view obligations, views 7x7..11x11, 13x13 thorough)'
 ASSUMPTIONS = ['documented preconditions on the view area', 'adjacency means edge- or corner-sharing (8-neighbourhood) in view coordinates']
 STUBS = ['Tok cells with symbolic blocks_vision', 'SymRng']
 TIME_LIMIT = {'quick': 300, 'thorough': 1800}
@@ -136,6 +136,57 @@ def mk_monotone(fname, H, W, box=None, fixed=None):
     return h
 
 
+def mk_large(fname, n):
+    """the shipped view sizes and beyond: n x n view on an n x n world, agent at the bottom centre facing forward; every cell is
+    transparent except three cells next to the agent whose opacity stays symbolic"""
+    from gym_gridverse.geometry import Area, Orientation
+
+    def h(sx):
+        toks = make_world(sx, n, n)
+        c = n // 2
+        symbolic = {(n - 2, c), (n - 2, c - 1), (n - 3, c)}
+        for y in range(n):
+            for x in range(n):
+                if (y, x) not in symbolic:
+                    toks[y][x].force(False)
+        area = Area((-(n - 1), 0), (-c, c))
+        pose = (n - 1, c, Orientation.F)
+        ob = observe(fname, toks, pose, area)
+        vis = visible_mask(ob)
+        sx.cover('large-view')
+        sx.check(vis[n - 1][c], 'own-cell-visible')
+        opaque = {k: bool(toks[k[0]][k[1]].blocks_vision) for k in symbolic}
+        # connectivity (view coordinates == world coordinates here)
+        reach = {(n - 1, c)}
+        dq = deque([(n - 1, c)])
+        while dq:
+            i, j = dq.popleft()
+            for di in (-1, 0, 1):
+                for dj in (-1, 0, 1):
+                    q = (i + di, j + dj)
+                    if q != (i, j) and 0 <= q[0] < n and 0 <= q[1] < n and q not in reach and vis[q[0]][q[1]] and not opaque.get(q, False):
+                        reach.add(q)
+                        dq.append(q)
+        for i in range(n):
+            for j in range(n):
+                if vis[i][j] and (i, j) != (n - 1, c):
+                    sx.check(any((i + di, j + dj) in reach for di in (-1, 0, 1) for dj in (-1, 0, 1) if (di, dj) != (0, 0)),
+                             'visible-cell-linked-to-agent-by-transparent-visible-chain', f'cell {(i, j)}')
+        if not any(opaque.values()):
+            sx.check(all(all(r) for r in vis), 'unobstructed-view-shows-everything')
+            sx.cover('unobstructed')
+        # non-interference: replace one hidden cell by a fresh token of unknown opacity
+        hidden = [(i, j) for i in range(n) for j in range(n) if not vis[i][j]]
+        if hidden:
+            k = hidden[int(sx.int('which', 0, min(len(hidden), 3) - 1))]
+            toks2 = [list(r) for r in toks]
+            toks2[k[0]][k[1]] = Tok('replacement')
+            ob2 = observe(fname, toks2, pose, area)
+            sx.check(same_cells(ob, ob2), 'replacing-a-hidden-cell-changes-nothing', f'replaced {k}')
+            sx.cover('hidden-replaced')
+    return h
+
+
 def mk_stochastic(H, W, box=None, fixed=None):
     def h(sx):
         toks = make_world(sx, H, W)
@@ -176,6 +227,9 @@ def obligations(tier):
                         continue  # 12-cell views on the 12-cell world: thorough tier
                     if area_ok(a, fname):
                         obs.append(Obligation(f'{kind}-{fname}-{H}x{W}-area{a}', mkf(fname, H, W, fixed=a), dict(kind=kind, function=fname, H=H, W=W, area=list(a))))
+    for fname in DET:
+        for n in ([7, 9, 11] if qk else [7, 9, 11, 13]):
+            obs.append(Obligation(f'large-view-{fname}-{n}x{n}', mk_large(fname, n), dict(function=fname, view=[n, n], symbolic_opacity='3 cells next to the agent, all others transparent')))
     for (H, W) in ([(2, 2)] if qk else [(2, 2), (2, 3)]):
         obs.append(Obligation(f'stochastic-{H}x{W}-every-area', mk_stochastic(H, W, box=(-1, 0, -1, 1)), dict(H=H, W=W, view_box=[-1, 0, -1, 1])))
     for (H, W) in [(3, 2), (3, 4)]:
